@@ -379,8 +379,15 @@ func (s *Service) doRouteResp(ctx context.Context, src, target, last boson.Addre
 		return 0
 	}
 	if resp != nil {
-		resp.Paths = s.routeTable.generatePaths(resp.Paths)
-		resp.UList = s.convUnderlayList(resp.UType, target, last, resp.UList)
+		// respForward calls this once per waiting source with the same received response:
+		// build the forwarded copy instead of extending the received one in place, otherwise
+		// every further source gets paths with this node appended once more
+		resp = &pb.RouteResp{
+			Dest:  resp.Dest,
+			Paths: s.routeTable.generatePaths(resp.Paths),
+			UType: resp.UType,
+			UList: s.convUnderlayList(resp.UType, target, last, resp.UList),
+		}
 	} else if len(paths) > 0 {
 		resp = &pb.RouteResp{
 			Dest:  target.Bytes(),
